@@ -421,7 +421,7 @@ EXPLAIN = {
     'C08': 'Writer purity and the constraint walks of writer and reader are proved against the denotation of the format, with the round-trip theorem over the two contracts; the feature tree walks are bounded.',
     'C09': 'FeatureIDE constraint elements are read with the truth value the format defines (proved for every element tree); the feature-tree walks of the four readers are bounded against independent emitters.',
     'C10': 'Purity of both exports proved (CNF chain proved under C18); the denotation of the exports is decided by independent interpreters (bounded).',
-    'C11': 'Writer purity proved; the denotation of the Clafer export is decided by an independent interpreter (bounded).',
+    'C11': 'Group keywords (parse_group_type) proved to carry the cardinality of the group under Clafer semantics; writer purity; the denotation of the whole export is decided by an independent interpreter (bounded).',
     'C12': 'Purity, determinism primitives, return-what-was-written and UTF-8 call sites proved on the source of the eight writers; byte-identity across processes is configuration sampling (bounded).',
     'C03': 'Every query function of models/feature_model.py under contract is proved equal to its specification function '
            '(rel_class, rels, feats, children, feature_class) for all well-formed heaps, unbounded in size.',
